@@ -14,6 +14,11 @@ def run_item(item):
         from harness import blocks
         o, es, ex = blocks.solve(item['spec'], reduction=item['reduction'])
         return o, {k: list(v) for k, v in es.TimeSeries.items()}
+    if item['type'] == 'econ':
+        from harness import econ
+        built = econ.build(item['spec'], maxtime=item['spec']['horizon'])
+        o = 'ok' if built.error is None else type(built.error).__name__
+        return o, {k: list(v) for k, v in built.model.EquationSolver.TimeSeries.items()}
     from harness.props import c17
     mod = c17.build_book_model(item['spec'])
     try:
